@@ -360,6 +360,8 @@ def run_two_pass(loads, law, second=True, peek="none", ckpt="none"):
         first_rows = None
         if peek in ("between", "both"):
             rec.collective
+        if peek == "plot":
+            det.interpolated_stress_strain_data(n_points_per_branch=3)      # the documented way to look at the curve so far
         if ckpt == "fork":
             # both the original and its deep copy go on (the assessment code hands the first-pass detector
             # to the user and continues on a copy): the copy is what the caller evaluates, the original runs first
@@ -438,7 +440,7 @@ def generate(prop, rng, tier):
               "mat": rng.randrange(len(MATERIALS)), "bins": rng.choice([10, 20, 50]),
               "twin": None,
               "container": rng.choice(["f64", "f64", "f64", "list", "i64", "i32", "i16", "series", "f32int", "negzero", "mixedzero", "series_ls"]),
-              "peek": rng.choice(["none", "none", "before", "between", "both"]),
+              "peek": rng.choice(["none", "none", "before", "between", "both", "plot"]),
               "ckpt": rng.choice(["none", "none", "none", "deepcopy", "pickle", "fork"])}
         if rng.random() < 0.3:
             # J3 twin: interior-only refinement, compared per pass with the base
@@ -497,7 +499,7 @@ def generate_c05(rng, tier):
     tr = {"world": NAME, "levels": lv, "step": step, "law": rng.choice(["EN", "EN", "SB"]),
           "mat": rng.randrange(len(MATERIALS)), "bins": rng.choice([20, 50, 100, 200]),
           "mode": rng.choice(["K1", "K1", "K2", "K2", "K3"]),
-          "peek": rng.choice(["none", "none", "between", "both"]),
+          "peek": rng.choice(["none", "none", "between", "both", "plot"]),
           "ckpt": rng.choice(["none", "none", "deepcopy", "pickle", "fork"])}
     edge = rng.random() < 0.4
     tr["max_factor"] = rng.choice([1.0, 1.0, 1.25, 2.0]) if edge else rng.choice([1.0137, 1.0731, 1.3391, 1.9173])
@@ -630,7 +632,7 @@ def exec_c04(trace, out, log):
         law = get_law(trace["law"], int(trace["mat"]), law_nodes([(i, big * 1.0731 * r) for i, r in nodes], trace.get("law_order")), int(trace["bins"]))
         if trace.get("law_order") in ("sorted", "reversed"):
             out.count("probe:law_node_order_" + trace["law_order"])
-        det, rec, _ = run_two_pass(ser, law, peek=trace.get("peek", "none"))
+        det, rec, _ = run_two_pass(ser, law, peek=trace.get("peek", "none") if trace.get("peek") != "plot" else "between")
         all_rows = collective_rows(rec)
         out.steps += 2
         out.count("probe:batched_history")
@@ -945,6 +947,23 @@ def exec_c05(trace, out, log):
         if not compare_rows(mine, rows_s, "K2-batch-equals-solo", out,
                             dict(ctx, node=nid, ratio=ratio, position=j, nodes=nodes, shared_max=shared), tol=tol):
             return
+    # the same law object then serves a second assessment whose batch starts with another node
+    # (a hot-spot re-run on some of the points): every point must again get what it gets alone
+    if m > 1 and not trace.get("subset_of_mesh"):
+        order2 = list(range(1, m)) + [0]
+        nodes2 = [nodes[q] for q in order2]
+        idx2 = pd.MultiIndex.from_product([range(n), [i for i, _ in nodes2]], names=["load_step", "node_id"])
+        batch2 = pd.Series([lv[k] * step * r for k in range(n) for _, r in nodes2], index=idx2, dtype=np.float64)
+        det2, rec2, _ = run_two_pass(batch2, law_b)
+        rows_2 = collective_rows(rec2)
+        out.steps += 2
+        out.count("history:law_object_serves_second_batch")
+        for j2, q in enumerate(order2):
+            mine2 = [r for r in rows_2 if r["_idx"][1] == j2]
+            first = [r for r in rows_b if r["_idx"][1] == q]
+            if not compare_rows(mine2, first, "K2-batch-equals-solo", out,
+                                dict(ctx, node=nodes[q][0], second_batch_order=[i for i, _ in nodes2], nodes=nodes, shared_max=shared), tol=TOL):
+                return
     # hysteresis_index/assessment_point_index layout
     want_idx = [(h, a) for h in range(len(rows_b) // m) for a in range(m)]
     if [r["_idx"] for r in rows_b] != want_idx:
